@@ -25,11 +25,14 @@ fn arg(args: &[String], name: &str) -> Option<String> {
     args.iter().position(|a| a == name).and_then(|i| args.get(i + 1).cloned())
 }
 
-const ORDER: [(&str, f64); 10] = [
+const ORDER: [(&str, f64); 13] = [
     ("-inf", f64::NEG_INFINITY),
     ("neg", -7.0),
     ("-0", -0.0),
     ("+0", 0.0),
+    ("sub", 5e-324),
+    ("subhi", 2.225073858507201e-308), // the largest subnormal
+    ("minnorm", f64::MIN_POSITIVE),
     ("tiny", 0.3),
     ("mid", 5.0),
     ("day", 86_400_000_000.0),
@@ -221,11 +224,11 @@ fn main() {
         ("Beta", DistType::Beta { alpha: s, beta: m }),
         ("Beta", DistType::Beta { alpha: 1e-3, beta: 1e3 }),
     ];
-    let clamps: [(f64, f64); 7] = [(0.0, 0.0), (nan, 0.0), (0.0, nan), (inf, 1.0), (-inf, 0.0), (0.0, 1e-300), (-1e300, 1e300)];
+    let clamps: [(f64, f64); 9] = [(0.0, 0.0), (nan, 0.0), (0.0, nan), (inf, 1.0), (-inf, 0.0), (0.0, 1e-300), (-1e300, 1e300), (0.0, 5e-324), (5e-324, 1e-310)];
     let patterns: [u64; 5] = [0, u64::MAX, 0xAAAA_AAAA_AAAA_AAAA, 0x5555_5555_5555_5555, 0x0000_0000_FFFF_FFFF];
     let (mut n_sample, mut n_valid) = (0u64, 0u64);
     let mut hangs = 0u32;
-    let mut hung: std::collections::HashSet<(usize, usize)> = std::collections::HashSet::new();
+    let mut hung: std::collections::HashSet<usize> = std::collections::HashSet::new();
     let (mut skipped_repeat, mut aborted) = (0u64, false);
     for (fi, (fam, dt)) in fams.iter().enumerate() {
         for (ci, (start, max)) in clamps.iter().enumerate() {
@@ -247,7 +250,7 @@ fn main() {
                 let umax_first = first.map(|w| (w >> 11) == (1u64 << 53) - 1).unwrap_or(false);
                 // a distribution that already hung on an all-ones first word is not sampled on
                 // such a stream again (every repetition would leave another spinning thread)
-                if umax_first && hung.contains(&(fi, ci)) {
+                if umax_first && hung.contains(&fi) {
                     skipped_repeat += 1;
                     continue;
                 }
@@ -286,7 +289,7 @@ fn main() {
                 };
                 if hang {
                     hangs += 1;
-                    hung.insert((fi, ci));
+                    hung.insert(fi);
                 }
                 // discriminating facts for the known-findings file
                 let sig = if hang {
